@@ -23,19 +23,19 @@ CHECKS = {
          "Storage-error enumeration in simulation: every operation of the final backup's trace fails once with each of four error kinds, plus seeded multi-fault runs; oracles from an independent decoder (every recorded entry reassembles to its source bytes, earlier files untouched, clean success implies exact restore, no panic).",
          "deterministic simulation with exhaustive single-fault injection per scenario + seeded multi-fault sequences"),
  "C05": ("fault_enumeration", "6 C05",
-         "Delete/gc at the end of seeded histories: fault-free oracle (refusal exactly when predicted, exact band set, reference scan, dry run identical) and, for real deletes, a crash before EVERY operation and every read/list/stat failing once; every kept complete version must still restore exactly.",
+         "Delete/gc at the end of seeded histories (some with tails written the pre-0.6.4 way and zero-length leftovers of killed writes): fault-free oracle (refusal exactly when predicted, exact band set, reference scan, dry run identical) and, for real deletes, a crash before EVERY operation and every read/list/stat failing once; every kept complete version must still restore exactly.",
          "deterministic simulation with exhaustive crash-point and read-fault injection per scenario"),
  "C06": ("exploration", "6 C06",
          "Two simulated Conserve processes (backup and delete/gc) racing through storage one operation at a time under a scheduler the simulator owns: all single-preemption schedules in both orders, sampled three-preemption schedules (thorough) and seeded biased-random schedules, over directed archive states (basis being deleted, garbage whose content reappears) and random histories.",
          "deterministic simulation of two racing processes with a controlled scheduler: systematic preemption-bounded schedules + seeded random schedules"),
  "C07": ("exploration", "6 C07",
-         "Seeded histories (with killed and resumed backups, zero-length leftovers, deletes, gc) checked step by step against the operation log and a byte-for-byte before/after store image, and two backups of different sources racing as two simulated processes under systematic single-preemption and seeded random schedules; one third of the runs execute the real transport/local.rs on tmpfs behind the interceptor.",
+         "Seeded histories (with killed and resumed backups, zero-length leftovers, deletes, gc) checked step by step against the operation log and a byte-for-byte before/after store image, after every step a restore, a quick validation and a listing must perform no mutating storage operation; and two backups of different sources racing as two simulated processes under systematic single-preemption and seeded random schedules (every other race within one simulated second); one third of the runs execute the real transport/local.rs on tmpfs behind the interceptor.",
          "deterministic simulation (histories with crash injection; two racing processes under a controlled scheduler) with an operation-log oracle, on both the stub store and the real local transport"),
  "C08": ("exploration", "6 C08",
          "Archive states from real simulated histories with many killed backups and from state injection (bands written directly in format 0.6: complete/incomplete/head-less/hunk-less/absent, every hunk split, missing trailing hunks); every (band, subtree, exclusion) listing is compared with reference-stitch o ancestor-filter o exclusion over the independent decoder, checked for strict order and for termination within the operation budget.",
          "deterministic simulation (crash-injected histories + seeded state injection) with an executable reference model of the stitching rule"),
  "C09": ("fault_enumeration", "6 C09",
-         "Healthy side: fault-free simulated histories (incl. interrupted-with-header backups, deletes, gc) validated after every step. Damage side: for the final store EVERY file except tails x {delete, truncate 0, truncate half, garbage} + seeded bit flips in blocks; every version is restored before and after, and only damage that changes a restore obliges validate to report.",
+         "Healthy side: fault-free simulated histories (incl. interrupted-with-header backups, deletes, gc) validated after every step. Damage side: for the final store EVERY file x {delete (not for band tails: absence of a tail is the legal incomplete state), truncate 0, truncate half, garbage} + seeded bit flips in blocks; every version is restored before and after, and only damage that changes a restore obliges validate to report.",
          "deterministic simulation with exhaustive single-file storage-rot injection per scenario; differential restore oracle decides when validate must speak"),
  "C10": ("fault_enumeration", "6 C10",
          "For the final store of a simulated history EVERY file except the header x {delete, truncate 0, truncate half, garbage} + bit flips in every file; versions/list/restore of every band, validate twice, a new backup and its restore are run on each damaged world: no panic or hang, untouched files restore exactly, broken files are reported, backup after missing-file damage completes and restores.",
@@ -61,7 +61,7 @@ CHECKS.update({
          "Sandboxed restores in simulation: trees whose symlinks aim at sentinel files/directories beside the destination (relative, absolute, '..'), restored with drawn subtree/exclusion selections into absent, empty and pre-populated destinations; a recursive lstat+content snapshot of everything outside the destination must not change, and a non-empty destination must be refused untouched.",
          "deterministic simulation (seeded workload) + sandbox snapshot oracle around the real restore target"),
  "C17": ("exploration", "6 C17",
-         "Each seeded history (with killed backups, deletes, gc) is executed three times into fresh simulated stores under controlled environment flavours (sorted / shuffled / reversed listings, no delays / two delay seeds that reorder sibling-task completion); stores must be byte-identical modulo the two timestamps and the mutating operation sequences equal.",
+         "Each seeded history (with killed backups, deletes, gc) is executed six times into fresh simulated stores: sorted / shuffled / reversed listings with no delays / two delay seeds that reorder sibling-task completion; the simulated process exiting before detached tasks run; the simulated clock 70 years ahead; and (files only) a real 4-worker tokio runtime. Stores must be byte-identical modulo the two timestamps and, for the simulator-scheduled flavours, the mutating operation sequences equal.",
          "deterministic simulation replayed under varied simulator-controlled schedules/listing orders; byte-level differential oracle"),
  "C18": ("exploration", "6 C18",
          "Tree, backup, generated mutation set, then diff (with and without unchanged) and the next backup's change callback are compared path by path with a model diff of the harness's two snapshots; the untouched tree must report no change.",
